@@ -217,7 +217,21 @@ impl Check for C03 {
                 sample_strs.push(text.clone());
             }
             if has_err {
-                ctx.fail("C03:rejects_derivable", describe("the grammar derives the string but the parser reports an error", &format!("derivation={}", cfg::render(&expected[0]))));
+                // known finding: an LR conflict that the generator reports for the same grammar WITHOUT its `inline` list is
+                // resolved silently (and wrongly) once the rule is inlined into a repetition
+                let hidden_conflict = serde_json::from_str::<serde_json::Value>(&gtext)
+                    .ok()
+                    .filter(|g| g["inline"].as_array().map(|a| !a.is_empty()).unwrap_or(false))
+                    .map(|mut g| {
+                        g["inline"] = serde_json::json!([]);
+                        matches!(lang::generate_c(&g.to_string(), OptLevel::default()), Err(e) if e.contains("Unresolved conflict"))
+                    })
+                    .unwrap_or(false);
+                let sig = if hidden_conflict { "C03:rejects_derivable:conflict_hidden_by_inlining" } else { "C03:rejects_derivable" };
+                ctx.fail(sig, describe("the grammar derives the string but the parser reports an error", &format!("derivation={}", cfg::render(&expected[0]))));
+                if hidden_conflict {
+                    break;
+                }
                 return;
             }
             if expected.len() >= 2 {
